@@ -17,8 +17,19 @@ def graph_tasks(ops, tier, cfgs=None):
     weight = {'bind': 10, 'data': 4, 'put': 3, 'readers': 2}
     for (N, cap) in cfgs:
         for op in ops:
-            ts.append(Task("%s N=%d cap=%d" % (op, N, cap), 'seir.pgraph:ob_' + op, N=N, cap=cap,
-                           _weight=weight.get(op, 1) * cap * N))
+            wt = weight.get(op, 1) * cap * N
+            if op == 'bind':
+                # operand ids are case-split (every ordered pair), everything else stays symbolic
+                for v1 in range(cap):
+                    for v2 in range(cap):
+                        if v1 != v2:
+                            ts.append(Task("bind N=%d cap=%d v1=%d v2=%d" % (N, cap, v1, v2), 'seir.pgraph:ob_bind',
+                                           N=N, cap=cap, v1=v1, v2=v2, _weight=wt))
+            elif op in ('put', 'data'):
+                for v in range(cap):
+                    ts.append(Task("%s N=%d cap=%d v=%d" % (op, N, cap, v), 'seir.pgraph:ob_' + op, N=N, cap=cap, v=v, _weight=wt))
+            else:
+                ts.append(Task("%s N=%d cap=%d" % (op, N, cap), 'seir.pgraph:ob_' + op, N=N, cap=cap, _weight=wt))
     return ts
 
 
@@ -63,6 +74,7 @@ def finish(prop, tier, seed, t0, b, results, spec):
     confirmed = []        # (violation, what, replay path)
     unreproduced = []
     known_hit = {}
+    dup_count = {}
     seen_jobs = set()
     for r in results:
         for v in r['violations']:
@@ -83,6 +95,9 @@ def finish(prop, tier, seed, t0, b, results, spec):
             k = next((k for k in known if k['key'] == key), None)
             if k is not None:
                 known_hit.setdefault(key, (k, rec))
+                continue
+            if any(r0['key'] == key for r0, _, _ in confirmed):
+                dup_count[key] = dup_count.get(key, 1) + 1
                 continue
             path = H.write_replay(prop, rec)
             confirmed.append((rec, what, path))
@@ -159,6 +174,7 @@ def _z3v():
 
 
 PROPS = {
+    'C02': GraphSpec(['add', 'put', 'data', 'bind'], "abstract transition relation + Inv preservation + no panic within the limits, one step from every Inv state"),
     'C04': GraphSpec(['add'], "add(v) from every Inv state: blank vertex on an absent id (arbitrary stale contents), nothing changes on a present id"),
     'C05': GraphSpec(['next_id'], "next_id() from every Inv state with an absent id at or above the allocator position"),
 }
